@@ -1,0 +1,33 @@
+//go:build verif
+// +build verif
+
+package hc
+
+import (
+	"github.com/brutella/hc/hap"
+)
+
+// The functions in this file are only compiled with the "verif" build tag.
+// They give the verification harness read access to otherwise private state.
+
+// VerifPort returns the port the transport's server listens at (0 until started).
+func (t *ipTransport) VerifPort() int {
+	if t.server == nil {
+		return 0
+	}
+	n := 0
+	for _, c := range t.server.Port() {
+		n = n*10 + int(c-'0')
+	}
+	return n
+}
+
+// VerifTxtRecords returns the mDNS TXT records the transport currently advertises.
+func (t *ipTransport) VerifTxtRecords() map[string]string {
+	return t.config.txtRecords()
+}
+
+// VerifContext returns the transport's hap context.
+func (t *ipTransport) VerifContext() hap.Context {
+	return t.context
+}
